@@ -732,11 +732,6 @@ package moss
 //@   loop 1: invariant forall c string :: visited(c) ==> has(footer.ChildFooters, c) && sameLocs(footer.ChildFooters[c], revertToFooter.ChildFooters[c])
 //@   loop 1: invariant forall c string :: has(footer.ChildFooters, c) ==> visited(c)
 
-//@ func (s *Store) persistFooter(file File, footer *Footer, options StorePersistOptions) error
-//@   trusted writes through the handle only (ordering and error propagation: C05/C06); on success records where the footer was written
-//@   requires footer != nil
-//@   modifies footer.fileName, footer.filePos
-
 // ---- walking back (C12) ----------------------------------------------------------------------------
 
 // The footer ScanFooter finds when scanning file fref backwards from pos
@@ -863,3 +858,78 @@ package moss
 //@   loop 1: invariant !ioFailed && pos <= 4611686018427387904 && fref.file != nil
 //@   loop 2: modifies ioFailed
 //@   loop 2: invariant !ioFailed && pos <= 4611686018427387904 && fref.file != nil
+
+// ---- writer protocol: ordering and append-only (C05) ----------------------------------------------------
+
+// Ghost state of the one file a persistence round writes to:
+//   unsynced      something was written since the last successful Sync
+//   knownSize     the size last reported by Stat (writes only make it grow)
+//   footerEarly   a footer was written while earlier data was still unsynced
+//@ ghost var unsynced bool
+//@ ghost var knownSize int64
+//@ ghost var footerEarly bool
+
+//@ func File.WriteAt
+//@   requires @appendOnly off >= knownSize
+//@   modifies ioFailed, unsynced
+//@   ensures @count 0 <= n && n <= len(p)
+//@   ensures @failed ioFailed == (old(ioFailed) || err != nil || n < len(p))
+//@   ensures @dirty unsynced
+//@ func File.Sync
+//@   modifies ioFailed, unsynced
+//@   ensures @failed ioFailed == (old(ioFailed) || result != nil)
+//@   ensures @clean (result == nil ==> !unsynced) && (result != nil ==> unsynced == old(unsynced))
+//@ func fs_FileInfo.Size
+//@   ensures result == knownSize && result >= 0
+//@ func fs_FileInfo.Name
+//@   ensures true
+
+//@ pure abstract func bufferBytes(b uintptr) []byte
+//@ func bytes_Buffer.Bytes
+//@   trusted the unread bytes of an in-memory buffer; called twice with no write in between in persistFooterUnsynced
+//@   ensures result == bufferBytes(b)
+
+// The footer goes to the first page boundary at or after the end of the file:
+// nothing that is already in the file is overwritten.
+//@ func (s *Store) persistFooterUnsynced(file File, footer *Footer) error
+//@   props C05 C06
+//@   attr obligations call-requires ensures
+//@   requires file != nil && footer != nil && StorePageSize > 0 && StorePageSize <= 1073741824 && knownSize >= 0 && knownSize <= 4611686018427387904
+//@   requires @platform AllocationGranularity == StorePageSize
+//@   modifies ioFailed, unsynced, footerEarly, footer.fileName, footer.filePos
+//@   ensures @assume_early footerEarly == (old(footerEarly) || old(unsynced))
+//@   ensures @reported ioFailed && !old(ioFailed) ==> result != nil
+//@   ensures @placed result == nil ==> footer.filePos >= old(knownSize) && footer.filePos % StorePageSize == 0
+
+// Data first, then the footer, then the footer is made durable: with syncing
+// on, the footer is never written while earlier writes are unsynced, and on
+// success nothing is left unsynced.
+//@ func (s *Store) persistFooter(file File, footer *Footer, options StorePersistOptions) error
+//@   props C05 C06 C12
+//@   attr obligations call-requires ensures
+//@   requires file != nil && footer != nil && StorePageSize > 0 && StorePageSize <= 1073741824 && knownSize >= 0 && knownSize <= 4611686018427387904
+//@   requires @platform AllocationGranularity == StorePageSize
+//@   modifies ioFailed, unsynced, footerEarly, footer.fileName, footer.filePos
+//@   ensures @order !options.NoSync && !old(footerEarly) ==> !footerEarly
+//@   ensures @durable result == nil && !options.NoSync ==> !unsynced
+//@   ensures @reported ioFailed && !old(ioFailed) ==> result != nil
+
+// ---- asynchronous compaction writes (C06) ------------------------------------------------------------------
+
+//@ func io_WriterAt.WriteAt
+//@   modifies ioFailed, unsynced
+//@   ensures @count 0 <= n && n <= len(p)
+//@   ensures @failed ioFailed == (old(ioFailed) || err != nil || n < len(p))
+//@   ensures @dirty unsynced
+
+// The writer goroutine of a bufferedSectionWriter: when the WriteAt of a
+// request fails (or is short), the status it hands back next on resCh is an
+// error.  (After an error the owner sends no further request: Flush returns
+// b.err before sending.)
+//@ func newBufferedSectionWriter$1()
+//@   props C06 C07
+//@   attr obligations inv-entry inv-preserve
+//@   requires !ioFailed
+//@   loop 1: modifies ioFailed, unsynced
+//@   loop 1: invariant true
+//@   loop 1: latch @carried ioFailed && !atHead(ioFailed) ==> err != nil
